@@ -242,6 +242,12 @@ def run(ctx, replay=None):
         if "operands" in replay.get("case", {}) or "tree" in replay.get("case", {}):  # harness/props_ext/c02_lower.py
             from harness.props_ext import c02_lower
             return c02_lower.run(ctx, replay)
+        if replay.get("case", {}).get("rawfree"):  # rewrite-free phase comparison (harness/props_ext/c02_rawfree.py)
+            from harness.props_ext import c02_rawfree
+            return c02_rawfree.run(ctx, replay)
+        if replay.get("case", {}).get("bwg"):  # harness/props_ext/c02_gate.py
+            from harness.props_ext import c02_gate
+            return c02_gate.run(ctx, replay)
         if replay.get("case", {}).get("grid"):  # grid-sensitive consumers (harness/props_ext/c02_grid.py)
             from harness.props_ext import c02_grid
             return c02_grid.run_grid(ctx, replay)
@@ -259,6 +265,10 @@ def run(ctx, replay=None):
             ctx.sample({"program": prog})
     kernel_substitution_stream(ctx)
     rule_directed_stream(ctx)
+    # third-round directed chains (rank-4/5 permutations under integer indices, creation functions with name= / dtype= /
+    # chunks forms, ufunc(out=[, where=]) under every index kind) with a rewrite-free phase comparison
+    from harness.props_ext import c02_rawfree
+    c02_rawfree.run(ctx)
     rules = sorted({k[1] for k in ctx.distinct if k and k[0] == "rewrite"})
     ctx.extra["rules_fired"] = rules
     # model correspondence for all collected rewrites (one driver batch)
@@ -278,3 +288,5 @@ def run(ctx, replay=None):
     c02_grid.run_grid(ctx)
     from harness.props_ext import c02_lower  # chunk unification at lowering (Props/C02Lower.lean, C17Lower.lean; lwu.*)
     c02_lower.run(ctx)
+    from harness.props_ext import c02_gate  # generic Blockwise pushdown gates (Props/C02Gate.lean; bwg.*)
+    c02_gate.run(ctx)
